@@ -24,14 +24,37 @@ ASSUMPTIONS = ['Environment._events holds exactly the pending events (anchor of 
 MIX = [('general', 4), ('contention', 2), ('interrupt', 2), ('groups', 1), ('buffers', 1)]
 
 
+def with_zero_runs(strategy):
+    """A simulate(0) call before the first run or between two runs: it executes what is due at the current instant
+    (initial events; events created by API calls made between the runs) and leaves the clock where it is."""
+    from hypothesis import strategies as st
+
+    def add(spec, where):
+        if where == 0:
+            return spec
+        spec = dict(spec)
+        T = list(spec['T'])
+        if where == 1 or len(T) == 1:
+            spec['T'] = [0] + T
+            spec['between'] = [[b[0] + 1] + list(b[1:]) for b in spec.get('between', [])]
+        else:
+            # after the first run and the API calls that follow it
+            spec['T'] = [T[0], 0] + T[1:]
+            spec['between'] = [[b[0] if b[0] == 0 else b[0] + 1] + list(b[1:]) for b in spec.get('between', [])]
+        if isinstance(spec.get('trace'), list):
+            spec['trace'] = True
+        return spec
+    return st.builds(add, strategy, st.sampled_from([0, 0, 0, 1, 2]))
+
+
 def phases(tier):
     if tier == 'quick':
         return [Search('hypothesis-histories', lambda: e1gen.cases(40), 1500, shards=4, tag='histories'),
-                Search('device-models', lambda: e3gen.specs(MIX, noisy_p=0.5), 250, shards=4, tag='models'),
+                Search('device-models', lambda: with_zero_runs(e3gen.specs(MIX, noisy_p=0.5)), 250, shards=4, tag='models'),
                 Machine('stateful-machine', envmachine.env_machine(('C01',), summarise), 250, 40, shards=4),
                 Search('float-noise-histories', lambda: e1gen.noise_cases(10), 1500, shards=4, tag='noise')]
     return [Search('hypothesis-histories', lambda: e1gen.cases(80), 3000, shards=16, tag='histories'),
-            Search('device-models', lambda: e3gen.specs(MIX, noisy_p=0.5), 1500, shards=16, tag='models'),
+            Search('device-models', lambda: with_zero_runs(e3gen.specs(MIX, noisy_p=0.5)), 1500, shards=16, tag='models'),
             Machine('stateful-machine', envmachine.env_machine(('C01',), summarise), 1500, 80, shards=16),
             Search('float-noise-histories', lambda: e1gen.noise_cases(16), 6000, shards=16, tag='noise')]
 
@@ -41,7 +64,14 @@ def on_repo_exception(case, e):
 
 
 def valid(case):
-    return e3gen.well_posed(case) if 'devs' in case else e1gen.valid_case(case)
+    if 'devs' in case:
+        # zero-length runs are part of this phase's domain
+        c = dict(case)
+        c['T'] = [t for t in case['T'] if t != 0] or [1]
+        if len(c['T']) != len(case['T']):
+            c.pop('between', None)
+        return e3gen.well_posed(c) and all(t >= 0 for t in case['T']) and sum(case['T']) > 0
+    return e1gen.valid_case(case)
 
 
 def run_case(case, ctx):
